@@ -929,6 +929,10 @@ func main() {
 	// ---- network
 	sC("net_default_configuration_priv", "driver/network/sendconfigs.go", "defaultConfigurationPrivLevel")
 	sC("net_unknown_priv", "driver/network/acquirepriv.go", "unknownPriv")
+	// ---- harness-support patterns (not from the source): prompts of synthetic privilege trees
+	for k := 0; k < 9; k++ {
+		addRegex(fmt.Sprintf("verif_lvl_%d", k), fmt.Sprintf(`(?im)^[a-z0-9.\-@/:]{1,32}\(l%d\)[#>]$`, k))
+	}
 	// ---- platform names
 	g := load("platform/definition.go")
 	fd := funcDecl("platform/definition.go", "GetPlatformNames")
